@@ -177,6 +177,27 @@ pub open spec fn insert_post<K: PartialEq, V, const N: usize>(pre: Map<K, V, N>,
     &&& K::obeys_eq_spec() && eq_symmetric::<K>() && !update_key && pre.keys_distinct() ==> post.keys_distinct()
 }
 
+/// `insert_post` for some index, with the displaced pair `d` given: the form used by the
+/// public wrappers (no quantifier at the interface, so callers chain by congruence)
+pub open spec fn insert_rel<K: PartialEq, V, const N: usize>(pre: Map<K, V, N>, post: Map<K, V, N>, k: K, v: V, update_key: bool, d: Option<(K, V)>) -> bool {
+    exists|p: (usize, Option<(K, V)>)| #[trigger] insert_post(pre, post, k, v, update_key, p) && p.1 == d
+}
+
+/// `remove_post` seen through `Map::remove` (only the value comes back)
+pub open spec fn remove_val_rel<K: Borrow<Q>, Q: PartialEq + ?Sized, V, const N: usize>(pre: Map<K, V, N>, post: Map<K, V, N>, q: &Q, r: Option<V>) -> bool {
+    exists|kv: Option<(K, V)>| #[trigger] remove_post(pre, post, q, kv) && r == (match kv { Some(p) => Some(p.1), None => None })
+}
+
+/// `remove_post` seen through `Set::take` (only the key comes back)
+pub open spec fn remove_key_rel<K: Borrow<Q>, Q: PartialEq + ?Sized, V, const N: usize>(pre: Map<K, V, N>, post: Map<K, V, N>, q: &Q, r: Option<K>) -> bool {
+    exists|kv: Option<(K, V)>| #[trigger] remove_post(pre, post, q, kv) && r == (match kv { Some(p) => Some(p.0), None => None })
+}
+
+/// `remove_post` seen through a boolean "something was removed"
+pub open spec fn removed_rel<K: Borrow<Q>, Q: PartialEq + ?Sized, V, const N: usize>(pre: Map<K, V, N>, post: Map<K, V, N>, q: &Q, removed: bool) -> bool {
+    exists|kv: Option<(K, V)>| #[trigger] remove_post(pre, post, q, kv) && removed == kv.is_some()
+}
+
 /// The contract of the swap-remove lookups (`remove_entry`, `remove`): what a call that
 /// returns `Some(kv)` / `None` has done to the table.
 pub open spec fn remove_post<K: Borrow<Q>, Q: PartialEq + ?Sized, V, const N: usize>(pre: Map<K, V, N>, post: Map<K, V, N>, q: &Q, r: Option<(K, V)>) -> bool {
